@@ -337,66 +337,71 @@ Proof.
     + apply E7. exact Hp.
 Qed.
 
-Theorem final_outcome s : GInv s -> all_done s -> (forall i, panics i = false) -> Outcome halt (ws s).
+(** the facts about a completed, panic-free run from which every kernel theorem follows;
+    shared by the indexed-source machine and the iterator-source machine *)
+Lemma outcome_from_facts (wl : list worker) (fr : nat) (sk : bool) :
+  wl <> [] ->
+  (forall w, In w wl -> ph w = Done) ->
+  Permutation (flat_map owned wl) (seq 0 fr) ->
+  fr <= len ->
+  (sk = false -> fr = len) ->
+  (forall w, In w wl -> owned w = chunks_of (pulls w) /\ incr (owned w) /\ (nostop w \/ exists m, stopped w m)) ->
+  (sk = true -> exists w m, In w wl /\ stopped w m) ->
+  Outcome halt wl.
 Proof.
-  intros G [Hsp Hfin] Hnp.
-  assert (Hdone : forall w, In w (ws s) -> ph w = Done).
-  { intros w Hw. destruct (Hfin w Hw) as [H|H]; auto. exfalso. eapply no_panic_no_dead; eauto. }
-  pose proof (owned_lt_front G) as Hlt.
-  destruct G as [Gp Gf Gc Gn Gd Gw Gk Gu Gs]. rewrite Hsp in Gs.
-  assert (Hne : ws s <> []) by (destruct (ws s); [simpl in Gs; lia|discriminate]).
-  assert (Hown : forall w, In w (ws s) -> owned w = seen w ++ aband w).
+  intros Hne Hdone Gp Gf Gn Gw Gk.
+  assert (Hlt : forall w, In w wl -> forall x, In x (owned w) -> x < fr).
+  { intros w Hw x Hx. assert (In x (flat_map owned wl)) by (apply in_flat_map; eauto).
+    eapply Permutation_in in H; [|exact Gp]. apply in_seq in H. lia. }
+  assert (Hown : forall w, In w wl -> owned w = seen w ++ aband w).
   { intros w Hw. unfold owned, pending. rewrite (Hdone w Hw). reflexivity. }
-  assert (Hctr : len <= ctr s).
-  { apply Gd. destruct (ws s) as [|w t]; [congruence|]. exists w. split; [left; auto|apply Hdone; left; auto]. }
-  rewrite Forall_forall in Gw.
   constructor.
   - exact Hne.
-  - apply Forall_forall. intros w Hw. destruct (Gw w Hw) as [_ Wi _ _ _].
+  - apply Forall_forall. intros w Hw. destruct (Gw w Hw) as (_ & Wi & _).
     rewrite (Hown w Hw) in Wi. eapply incr_app_l; eauto.
-  - apply Forall_forall. intros w Hw. destruct (Gw w Hw) as [_ _ _ _ [(H1 & _ & _)|(m & s0 & E1 & E2 & E3 & _)]].
+  - apply Forall_forall. intros w Hw. destruct (Gw w Hw) as (_ & _ & [(H1 & _ & _)|(m & s0 & E1 & E2 & E3 & _)]).
     + left. exact H1.
     + right. exists m, s0. auto.
-  - intros w i Hw Hi. assert (i < front s); [|lia].
+  - intros w i Hw Hi. assert (i < fr); [|lia].
     apply (Hlt w Hw). rewrite (Hown w Hw). apply in_or_app; auto.
   - intros Hns.
-    assert (Hab : forall w, In w (ws s) -> aband w = [] /\ seen w = chunks_of (pulls w)).
-    { intros w Hw. destruct (Gw w Hw) as [Wh _ _ _ [(_ & H2 & _)|(m & s0 & _ & E2 & _)]].
+    assert (Hab : forall w, In w (wl) -> aband w = [] /\ seen w = chunks_of (pulls w)).
+    { intros w Hw. destruct (Gw w Hw) as (Wh & _ & [(_ & H2 & _)|(m & s0 & _ & E2 & _)]).
       - rewrite (Hown w Hw), H2, app_nil_r in Wh. auto.
       - rewrite Hns in E2. discriminate. }
-    assert (Hsk : skipped s = false).
-    { destruct (skipped s) eqn:E; auto. destruct (Gk eq_refl) as (w & m & _ & s0 & _ & E2 & _).
+    assert (Hsk : sk = false).
+    { destruct (sk) eqn:E; auto. destruct (Gk eq_refl) as (w & m & _ & s0 & _ & E2 & _).
       rewrite Hns in E2. discriminate. }
     split.
-    + rewrite <- (Gn Hsk Hctr), <- Gp. erewrite flat_map_ext_in; [reflexivity|].
+    + rewrite <- (Gn Hsk), <- Gp. erewrite flat_map_ext_in; [reflexivity|].
       intros w Hw. rewrite (Hown w Hw). destruct (Hab w Hw) as [-> _]. now rewrite app_nil_r.
     + apply Forall_forall. intros w Hw. apply (Hab w Hw).
   - intros j Hj Hsj.
     (* some worker stopped below the frontier whenever the frontier is short of j *)
-    assert (Hcov : j < front s \/ exists w m, In w (ws s) /\ stopped w m /\ m < front s).
-    { destruct (skipped s) eqn:E.
+    assert (Hcov : j < fr \/ exists w m, In w (wl) /\ stopped w m /\ m < fr).
+    { destruct (sk) eqn:E.
       - right. destruct (Gk eq_refl) as (w & m & Hw & Hm). exists w, m. repeat split; auto.
         apply (Hlt w Hw). rewrite (Hown w Hw). destruct Hm as (s0 & -> & _).
         apply in_or_app; left. apply in_or_app; right; left; auto.
-      - left. rewrite (Gn eq_refl Hctr). exact Hj. }
+      - left. rewrite (Gn eq_refl). exact Hj. }
     destruct Hcov as [Hjf|(w & m & Hw & Hm & Hmf)].
     + (* j was handed out: its owner saw it or abandoned it *)
-      assert (Hin : In j (flat_map owned (ws s))).
+      assert (Hin : In j (flat_map owned (wl))).
       { eapply Permutation_in; [apply Permutation_sym; exact Gp|]. apply in_seq. lia. }
       apply in_flat_map in Hin. destruct Hin as (w & Hw & Hjw). rewrite (Hown w Hw) in Hjw.
-      destruct (Gw w Hw) as [_ _ _ _ [(H1 & H2 & _)|(m & s0 & E1 & E2 & E3 & E4 & _)]].
+      destruct (Gw w Hw) as (_ & _ & [(H1 & H2 & _)|(m & s0 & E1 & E2 & E3 & E4 & _)]).
       * rewrite H2, app_nil_r in Hjw. rewrite (H1 j Hjw) in Hsj. discriminate.
       * exists w, m. split; [exact Hw|]. split; [exists s0; auto|].
         apply in_app_or in Hjw. destruct Hjw as [Hjw|Hjw].
         -- rewrite E1 in Hjw. apply in_app_or in Hjw. destruct Hjw as [Hjw|[<-|[]]]; [|lia].
            rewrite (E3 j Hjw) in Hsj. discriminate.
         -- specialize (E4 j Hjw). lia.
-    + destruct (Nat.lt_ge_cases j (front s)) as [Hjf|Hjf].
+    + destruct (Nat.lt_ge_cases j (fr)) as [Hjf|Hjf].
       * (* same argument *)
-        assert (Hin : In j (flat_map owned (ws s))).
+        assert (Hin : In j (flat_map owned (wl))).
         { eapply Permutation_in; [apply Permutation_sym; exact Gp|]. apply in_seq. lia. }
         apply in_flat_map in Hin. destruct Hin as (w2 & Hw2 & Hjw). rewrite (Hown w2 Hw2) in Hjw.
-        destruct (Gw w2 Hw2) as [_ _ _ _ [(H1 & H2 & _)|(m2 & s0 & E1 & E2 & E3 & E4 & _)]].
+        destruct (Gw w2 Hw2) as (_ & _ & [(H1 & H2 & _)|(m2 & s0 & E1 & E2 & E3 & E4 & _)]).
         -- rewrite H2, app_nil_r in Hjw. rewrite (H1 j Hjw) in Hsj. discriminate.
         -- exists w2, m2. split; [exact Hw2|]. split; [exists s0; auto|].
            apply in_app_or in Hjw. destruct Hjw as [Hjw|Hjw].
@@ -405,10 +410,25 @@ Proof.
            ++ specialize (E4 j Hjw). lia.
       * exists w, m. split; [exact Hw|]. destruct Hm as (s0 & E1 & E2 & E3 & _).
         split; [exists s0; auto|lia].
-  - assert (Hnd : NoDup (flat_map owned (ws s))).
+  - assert (Hnd : NoDup (flat_map owned (wl))).
     { eapply Permutation_NoDup; [apply Permutation_sym; exact Gp|apply seq_NoDup]. }
     eapply NoDup_flat_map_prefix; [|exact Hnd].
     intros w Hw. exists (aband w). apply Hown. exact Hw.
+Qed.
+
+
+Theorem final_outcome s : GInv s -> all_done s -> (forall i, panics i = false) -> Outcome halt (ws s).
+Proof.
+  intros G [Hsp Hfin] Hnp.
+  assert (Hdone : forall w, In w (ws s) -> ph w = Done).
+  { intros w Hw. destruct (Hfin w Hw) as [H|H]; auto. exfalso. eapply no_panic_no_dead; eauto. }
+  destruct G as [Gp Gf Gc Gn Gd Gw Gk Gu Gs]. rewrite Hsp in Gs.
+  assert (Hne : ws s <> []) by (destruct (ws s); [simpl in Gs; lia|discriminate]).
+  assert (Hctr : len <= ctr s).
+  { apply Gd. destruct (ws s) as [|w t]; [congruence|]. exists w. split; [left; auto|apply Hdone; left; auto]. }
+  rewrite Forall_forall in Gw.
+  apply (@outcome_from_facts (ws s) (front s) (skipped s)); auto.
+  intros w Hw. destruct (Gw w Hw) as [Wh Wi _ _ Ws]. auto.
 Qed.
 
 End Invariants.
